@@ -2,6 +2,7 @@ package props
 
 import (
 	"fmt"
+	"os"
 	"runtime"
 	"sort"
 	"strings"
@@ -57,11 +58,12 @@ func TestC11_Programs(t *testing.T) {
 			{Limit: 10, UseNLP: true, PipelineOnly: true},
 			{Limit: 2, UseNLP: true, UseFuzzy: true, ContextBoosts: map[string]float64{toks[0]: 2}},
 		}
-		// sequential answers first
+		// sequential answers first, computed on a twin so that the database under test is still untouched
+		twin := gen.Load(t, cmds)
 		want := map[[2]int][]rankItem{}
 		for qi, q := range queries {
 			for oi, o := range opts {
-				want[[2]int{qi, oi}] = rank(db, db.SearchUniversal(q, o))
+				want[[2]int{qi, oi}] = rank(twin, twin.SearchUniversal(q, o))
 			}
 		}
 		g := rapid.IntRange(2, 16).Draw(t, "goroutines")
@@ -423,14 +425,19 @@ func TestC11_FirstUse(t *testing.T) {
 	rec.Rule("first-use contention: G in [2,16] goroutines released together by a barrier onto a fresh MonitoredDatabase, each doing 1-3 monitored / cached searches, repeated for many fresh instances per case. Oracle: answers equal the sequential ones and the monitor totals equal the number of monitored searches (no increment lost while the series are being created).")
 	rapid.Check(t, func(t *rapid.T) {
 		cmds, _ := gen.DB(t, gen.CmdOpts{}, []int{0, 0, 2, 6, 0})
-		db := gen.Load(t, cmds)
+		twin := gen.Load(t, cmds) // sequential answers come from a twin, so the databases under test stay untouched
 		toks := gen.Tokens(cmds)
 		if len(toks) == 0 {
 			toks = []string{"find"}
 		}
 		q := gen.TextOf(rapid.SampledFrom(toks), 1, 2).Draw(t, "q")
+		if rapid.Bool().Draw(t, "typo-query") {
+			q = gen.Typo(t, rapid.SampledFrom(toks).Draw(t, "typo-word")) // answered by the typo fallback
+		}
 		opt := database.SearchOptions{Limit: 5, UseNLP: rapid.Bool().Draw(t, "nlp"), UseFuzzy: true}
-		want := rank(db, db.SearchUniversal(q, opt))
+		want := rank(twin, twin.SearchUniversal(q, opt))
+		path := gen.WriteDB(t, cmds)
+		defer os.Remove(path)
 		g := rapid.IntRange(2, 16).Draw(t, "goroutines")
 		each := rapid.IntRange(1, 3).Draw(t, "each")
 		procs := rapid.SampledFrom([]int{2, 4, 16}).Draw(t, "gomaxprocs")
@@ -438,6 +445,10 @@ func TestC11_FirstUse(t *testing.T) {
 		defer runtime.GOMAXPROCS(prev)
 		rounds := 25
 		for round := 0; round < rounds; round++ {
+			db, err := database.LoadDatabase(path) // freshly loaded: nothing has been searched on it yet
+			if err != nil {
+				t.Fatalf("harness: %v", err)
+			}
 			mdb := database.NewMonitoredDatabase(db)
 			var wg sync.WaitGroup
 			var mu sync.Mutex
@@ -449,7 +460,13 @@ func TestC11_FirstUse(t *testing.T) {
 					defer wg.Done()
 					<-start
 					for j := 0; j < each; j++ {
-						got := rank(db, mdb.SearchWithOptionsAndMonitoring(q, opt))
+						var res []database.SearchResult
+						if (i+j)%3 == 0 {
+							res = db.SearchUniversal(q, opt) // some go straight to the engine
+						} else {
+							res = mdb.SearchWithOptionsAndMonitoring(q, opt)
+						}
+						got := rank(db, res)
 						if !rankEq(got, want) {
 							mu.Lock()
 							bad = append(bad, fmt.Sprintf("goroutine %d search %d: got %s, alone it answers %s", i, j, rankStr(got), rankStr(want)))
@@ -462,7 +479,14 @@ func TestC11_FirstUse(t *testing.T) {
 			if !waitOrHang(&wg, 60*time.Second) {
 				t.Fatalf("monitored searches on a fresh database did not finish within 60 s (deadlock)\n goroutines:\n%s", dumpStacks())
 			}
-			n := g * each
+			n := 0
+			for i := 0; i < g; i++ {
+				for j := 0; j < each; j++ {
+					if (i+j)%3 != 0 {
+						n++
+					}
+				}
+			}
 			sum, _ := monitorTotals2(mdb)
 			if int(sum["searches_total"]) != n || int(sum["cache_hits_total"]+sum["cache_misses_total"]) != n || int(sum["query_length_count"]) != n {
 				bad = append(bad, fmt.Sprintf("after %d concurrent first monitored searches: searches_total=%v hits+misses=%v query_length_count=%v", n, sum["searches_total"], sum["cache_hits_total"]+sum["cache_misses_total"], sum["query_length_count"]))
